@@ -534,4 +534,14 @@ def run_c11(run, scratch, seed, tier):
                      "model's session is order-independent and run-once; the suite is what shows the implementation behaves like the model")
 
 
-PROPS["C11"] = {"props_file": "C11.v", "run": run_c11}
+PROPS["C11"] = {"props_file": "C11.v", "run": run_c11, "level": "other"}
+
+
+# ---------------------------------------------------------------- C18
+def run_c18(run, scratch, seed, tier):
+    st = suites.report_suite(run, scratch, seed, sizes(tier, 300, 5000))
+    run.add_suite("reports", st)
+    run.cov["rule"] = st["rule"]
+
+
+PROPS["C18"] = {"props_file": "C18.v", "run": run_c18}
